@@ -123,6 +123,17 @@ def _child(fn, jobs, counter, wfd, per_job_limit, init, isolate=True):
         os._exit(0)
 
 
+def _prune_logs(keep=200):
+    """Per-child logs are diagnostics only; keep the newest few so that the directory stays small."""
+    try:
+        logdir = os.environ.get("VERIF_LOGDIR") or os.path.join(os.path.dirname(os.path.dirname(os.path.abspath(__file__))), "logs")
+        files = sorted((os.path.join(logdir, f) for f in os.listdir(logdir) if f.startswith("child-")), key=os.path.getmtime)
+        for f in files[:-keep]:
+            os.remove(f)
+    except OSError:
+        pass
+
+
 def run_jobs(fn, jobs, workers=None, wall_limit=3600.0, per_job_limit=900.0, init=None, on_result=None, isolate=True):
     """Returns list of results in job order. Raises HarnessError on any
     harness-level failure (crashed/hung child, exception escaping fn)."""
@@ -134,6 +145,7 @@ def run_jobs(fn, jobs, workers=None, wall_limit=3600.0, per_job_limit=900.0, ini
         if init is not None:
             init()
         return [fn(j) for j in jobs]
+    _prune_logs()
     counter = multiprocessing.Value("l", 0)
     sel = selectors.DefaultSelector()
     pids = {}
